@@ -766,6 +766,7 @@ DRV_OP(del) {
 DRV_OP(valid) {
     if (a.size() != 2 && a.size() != 3) throw ProtoError("valid arity");
     return guarded([&]() {
+        if (!hasSlot(a[1])) return std::string("none");        // a slot a refused fetch never bound
         Ent &e = slot(a[1]);
         if (!isSome(e)) return std::string("none");
         bool v = false;
